@@ -873,10 +873,21 @@ static Json gen_inflate(Rng &r0, const std::string &focus, int tier)
                 o.push(feed).push(out).push(flags);
                 ops.push(o);
         }
+        bool single_split = rio.chance(1, 6);
+        if (single_split) { // exactly one split of the input (at any position, biased to headers and the trailer) and/or of the output
+                ops = Json::arr();
+                uint32_t k = rio.chance(1, 2) ? (uint32_t) rio.below(64) : rio.chance(1, 2) ? (uint32_t) rio.below(700) : (uint32_t) rio.logsize(big);
+                uint32_t o1 = rio.chance(1, 2) ? big * 2 + 4096 : (uint32_t) rio.logsize(big);
+                Json o = Json::arr();
+                o.push(k).push(o1).push(0);
+                ops.push(o);
+        }
         p.set("ops", ops);
         Json tl = Json::arr();
         uint32_t tin = rio.chance(1, 2) ? 0 : std::max<uint32_t>(1, gen_chunk(rio, im, big));
-        uint32_t tout = rio.chance(1, 2) ? big * 2 + 4096 : std::max<uint32_t>(1, gen_chunk(rio, om, big + 4096));
+        if (single_split)
+                tin = 0;
+        uint32_t tout = rio.chance(1, 2) || single_split ? big * 2 + 4096 : std::max<uint32_t>(1, gen_chunk(rio, om, big + 4096));
         if (big > 20000) {
                 if (tout < 64)
                         tout += 64;
